@@ -230,6 +230,10 @@ func (c *FileCache) Stats() (int, int, int, int) {
 }
 
 func (c *FileCache) removeOldest() {
+	if c.ll == nil {
+		// Nothing has been cached yet, or the cache was cleared.
+		return
+	}
 	elem := c.ll.Back()
 	if elem != nil {
 		c.removeElement(elem)
